@@ -33,6 +33,28 @@ def operands(full_only=False):
 
 
 NPM_OPS = ["", "^", "~", ">=", ">", "<=", "<", "="]
+
+
+def near_versions(operand):
+    """the versions around an operand (full or partial) at which a comparator built on it changes its verdict: the floor of
+    what it denotes, its neighbours inside the same patch / minor / major line, the first versions of the next lines,
+    the last ones of the previous lines, and prereleases of the floor"""
+    core = operand.split("-")[0].split("+")[0]
+    comps = []
+    for c in core.split(".")[:3]:
+        comps.append(int(c) if c.isdigit() else 0)
+    while len(comps) < 3:
+        comps.append(0)
+    M, m, p = comps
+    out = [f"{M}.{m}.{p}", f"{M}.{m}.{p + 1}", f"{M}.{m}.{p + 7}", f"{M}.{m + 1}.0", f"{M}.{m + 3}.2", f"{M + 1}.0.0", f"{M + 1}.0.0-alpha",
+           f"{M}.{m}.{p}-alpha", f"{M}.{m}.{p + 1}-alpha", f"{M}.{m + 1}.0-0"]
+    if p > 0:
+        out.append(f"{M}.{m}.{p - 1}")
+    if m > 0:
+        out.append(f"{M}.{m - 1}.9")
+    if M > 0:
+        out.append(f"{M - 1}.9.9")
+    return out
 JUNK = ["", " ", "*", "x", "X", "latest", "next", "NEXT", "workspace:*", "file:../x", "git+https://x/y.git",
         "http://x/y.tgz", "1.x", "1.X", "1.2.x", "1.*", "1.2.*", "*.1", "x.1", "1.x.x", "^^1.2.3", "vv1.2.3",
         "v1.2.3", "=v1.2.3", ">= 1.2.3", "> =1.2.3", "~>1.2.3", "1.2.3 - ", " - 1.2.3", "1.2.3 -2.0.0",
